@@ -234,7 +234,7 @@ def run_group(low, g, tier, keep=False, cell=None):
     gname = g.name + ("" if cell is None else "[%s=%d]" % cell)
     cdefs0 = ["-D%s=%d" % cell] if cell else []
     res = {"gdir": gdir, "cdefs": cdefs0, "group": gname, "family": low.tag, "kind": g.kind, "mode": g.mode, "props": g.props, "obligations": [], "status": "OK", "reason": "", "cmds": []}
-    timeout = int(a.get("timeout", "150" if tier == "quick" else "1500"))
+    timeout = int(int(a.get("timeout", "450" if tier == "quick" else "3000")) * float(os.environ.get("VF_TIMEOUT_SCALE", "1")))
     inc = ["-I", os.path.join(ROOT, "harness"), "-I", os.path.join(ROOT, "tools/cxx2c"), "-I", low.dir, "-I", low.fam.dir]
     cdefs = ["-D%s=%d" % cell] if cell else []
     cmd = ["goto-cc", "--function", entry, tu, "-o", os.path.join(gdir, "a.gb")] + inc + low.defs + cdefs + ["-DVF_TIER_%s=1" % tier.upper()]
